@@ -225,6 +225,20 @@ func (vc *VC) declareIface(t types.Type) string {
 		return short
 	}
 	vc.S.ifaceDecl[short] = true
+	if sig, isFn := t.Underlying().(*types.Signature); isFn {
+		// a named function type treated as a one-method interface: events are its calls
+		fields := []string{}
+		for j := 0; j < sig.Params().Len(); j++ {
+			fields = append(fields, fmt.Sprintf("(%s.call.a%d %s)", short, j, vc.S.sortOf(sig.Params().At(j).Type())))
+		}
+		if len(fields) == 0 {
+			fields = append(fields, fmt.Sprintf("(%s.call.unit Bool)", short))
+		}
+		vc.S.decls = append(vc.S.decls,
+			fmt.Sprintf("(declare-datatypes ((Ev.%s 0)) (((%s.call %s))))", short, short, strings.Join(fields, " ")),
+			fmt.Sprintf("(declare-datatypes ((Tr.%s 0)) (((nil.%s) (cons.%s (hd.%s Ev.%s) (tl.%s Tr.%s)))))", short, short, short, short, short, short, short))
+		return short
+	}
 	it := t.Underlying().(*types.Interface)
 	var ctors []string
 	for i := 0; i < it.NumMethods(); i++ {
